@@ -192,6 +192,39 @@ func c15Siblings(c *engine.Ctx, rule string) {
 	}
 	if !grows {
 		c.Violate(rule, "message.Builder.AddBlock", addBlock.Pos(), "AddBlock no longer adds the block's length to the builder's size measure")
+	} else {
+		// every call of AddBlock was preceded by a reservation of the block's length: the measure must grow on every path, by that length
+		isGrow := func(in ssa.Instruction) bool {
+			st, ok := in.(*ssa.Store)
+			if !ok {
+				return false
+			}
+			fa, ok := st.Addr.(*ssa.FieldAddr)
+			if !ok || engine.FieldOf(fa) != blkSize {
+				return false
+			}
+			b, ok := st.Val.(*ssa.BinOp)
+			if !ok || b.Op != token.ADD {
+				return false
+			}
+			// the addend is len(block.RawData()) of the parameter
+			for _, side := range []ssa.Value{b.X, b.Y} {
+				if call, ok := stripConv(side).(*ssa.Call); ok {
+					if bi, ok := call.Call.Value.(*ssa.Builtin); ok && bi.Name() == "len" {
+						if rd, ok := call.Call.Args[0].(*ssa.Call); ok && rd.Call.IsInvoke() && rd.Call.Method.Name() == "RawData" && engine.Strip(rd.Call.Value) == ssa.Value(addBlock.Params[1]) {
+							return true
+						}
+					}
+				}
+			}
+			return false
+		}
+		ok, ret := engine.MustReachFromEntry(addBlock, isGrow, nil)
+		why := ""
+		if !ok && ret != nil {
+			why = "AddBlock can return at " + c.P.Pos(ret.Pos()) + " without adding the block's length to the released measure, although that length was reserved for the operation: the surplus is never returned"
+		}
+		c.Decide(rule, "message.Builder.AddBlock|unconditional", addBlock.Pos(), ok, "AddBlock adds len(block.RawData()) to the released measure on every path", why)
 	}
 	var names []string
 	for _, n := range tp.Scope().Names() {
